@@ -229,7 +229,7 @@ def crawl(outdir: str) -> Dict[str, Any]:
     site: Dict[str, Any] = {"files": [file_id(f) for f in files], "rawfiles": files, "symlinks": symlinks,
                             # decoded names of the files whose on-disk name is percent-encoded
                             "encfiles": sorted({file_id(unquote(f)) for f in files if unquote(f) != f}),
-                            "anchors": {}, "nameanchors": {}, "links": [], "entries": [], "inv": [], "alldocs": [],
+                            "anchors": {}, "nameanchors": {}, "titles": {}, "links": [], "entries": [], "inv": [], "alldocs": [],
                             "searchindex": [], "fullsearchindex": [], "parse_errors": []}
     for rel in files:
         if not rel.endswith(".html"):
@@ -247,6 +247,7 @@ def crawl(outdir: str) -> Dict[str, Any]:
             if t.name == "a" and t.get("name"):
                 anchors.add(t.get("name"))
                 nameanchors.add(t.get("name"))
+        site["titles"][page] = soup.title.get_text().strip() if soup.title is not None else ""
         site["anchors"][page] = sorted(anchors)
         site["nameanchors"][page] = sorted(nameanchors)
         for t in soup.find_all(True):
@@ -284,6 +285,7 @@ def crawl(outdir: str) -> Dict[str, Any]:
         if rel.endswith(".html") and file_id(tgt) in site["anchors"]:
             site["anchors"][file_id(rel)] = site["anchors"][file_id(tgt)]
             site["nameanchors"][file_id(rel)] = site["nameanchors"][file_id(tgt)]
+            site["titles"][file_id(rel)] = site["titles"].get(file_id(tgt), "")
     inv = out / "objects.inv"
     if inv.exists():
         data = inv.read_bytes()
